@@ -4095,3 +4095,50 @@ func valueReceiverLoses(p *Prog, info *types.Info, e ast.Expr) string {
 	})
 	return why
 }
+
+// flagSetPoints: the program points right after which the boolean flag field `field` is known to hold
+// `val`, whether the flag is a plain bool (`x.f = val`) or an atomic.Bool (`x.f.Store(val)`, or the
+// success edge of `x.f.CompareAndSwap(old, val)` / of a tested `x.f.Swap(val)` is not included:
+// a swap stores unconditionally and counts as a store).
+func (f *FuncCFG) flagSetPoints(field, val string) []Point {
+	var out []Point
+	isFlag := func(e ast.Expr) bool { return fieldSel(f.Info, e, field) }
+	casTrue := map[*ast.CallExpr]bool{}
+	for _, b := range f.G.Blocks {
+		if !b.Live {
+			continue
+		}
+		for i, nd := range b.Nodes {
+			inspectNoLit(nd, func(m ast.Node) bool {
+				switch x := m.(type) {
+				case *ast.AssignStmt:
+					if len(x.Lhs) == 1 && len(x.Rhs) == 1 && isFlag(x.Lhs[0]) && rawKey(x.Rhs[0]) == val {
+						out = append(out, Point{b, i + 1})
+					}
+				case *ast.CallExpr:
+					se, ok := ast.Unparen(x.Fun).(*ast.SelectorExpr)
+					if !ok || !isFlag(se.X) {
+						return true
+					}
+					switch {
+					case (se.Sel.Name == "Store" || se.Sel.Name == "Swap") && len(x.Args) == 1 && rawKey(x.Args[0]) == val:
+						out = append(out, Point{b, i + 1})
+					case se.Sel.Name == "CompareAndSwap" && len(x.Args) == 2 && rawKey(x.Args[1]) == val:
+						casTrue[x] = true
+					}
+				}
+				return true
+			})
+		}
+	}
+	if len(casTrue) > 0 {
+		seen := map[Edge]bool{}
+		f.forEachEdgeFact(func(e Edge, _ *cfg.Block, ft fact) {
+			if c, ok := ast.Unparen(ft.Atom).(*ast.CallExpr); ok && casTrue[c] && ft.Pol && !seen[e] {
+				seen[e] = true
+				out = append(out, Point{e.From.Succs[e.Succ], 0})
+			}
+		})
+	}
+	return out
+}
